@@ -102,6 +102,14 @@ var victimAllowance = map[int]int64{aU0: 40, aKC: 25, aKB: 15, aKD: 12, aKCC: 9,
 
 const originAllowanceKC = 4
 
+// noGrant: a delegator on validator 0 that granted nobody anything and is not the caller
+func noGrant(caller int) int {
+	if caller == aKC {
+		return aKB
+	}
+	return aKC
+}
+
 func e18(n int64) *big.Int { return new(big.Int).Mul(big.NewInt(n), big.NewInt(1e18)) }
 
 func forwarder(kind lib.CallKind, target common.Address) []byte {
@@ -423,7 +431,11 @@ func (w *World10) calls(caller int) []Call10 {
 	// transferShares: to the victim, a bystander, oneself; one share, everything, one too many
 	own := e18(map[int]int64{aU0: 20, aKC: 30, aKB: 10, aKD: 10, aKCC: 10, aKS: 10}[caller])
 	for _, to := range []int{aU1, aU2, caller} {
-		for _, sh := range []*big.Int{e18(1), own, new(big.Int).Add(own, big.NewInt(1))} {
+		amounts := []*big.Int{e18(1), own, new(big.Int).Add(own, big.NewInt(1))}
+		if to == aU2 {
+			amounts = append(amounts, big.NewInt(0), big.NewInt(1)) // boundary: nothing, the smallest unit
+		}
+		for _, sh := range amounts {
 			add(S, "transferShares", fmt.Sprintf("(CTransferShares 0 %d %s)", to, zb(sh)), true, nil, -1, nil, 0, v0, A(to), sh)
 		}
 	}
@@ -440,6 +452,13 @@ func (w *World10) calls(caller int) []Call10 {
 		// without / within / beyond the allowance the sender granted the calling contract
 		{0, aU0, aU2, e18(1)}, {0, aU0, aU2, e18(originAllowanceKC)}, {0, aU0, aU1, new(big.Int).Add(e18(originAllowanceKC), big.NewInt(1))},
 		{0, aU0, aU2, e18(20)},
+		// boundary amounts: zero and the smallest unit, where the caller holds an allowance (validator 0) ...
+		{0, aU1, aU2, big.NewInt(0)}, {0, aU1, aU2, big.NewInt(1)},
+		// ... and where it holds none at all (a never-granted allowance reads 0): the victim on validator 1, a
+		// bystander without shares, another contract's delegation
+		{1, aU1, aU2, big.NewInt(0)}, {1, aU1, aU2, big.NewInt(1)}, {1, aU1, caller, big.NewInt(0)},
+		{0, aU2, caller, big.NewInt(0)},
+		{0, noGrant(caller), aU2, big.NewInt(0)}, {0, noGrant(caller), aU2, big.NewInt(1)}, {0, noGrant(caller), aU2, e18(10)},
 	} {
 		if c.from == caller && c.from == aU0 && c.to == aU2 && c.sh.Cmp(e18(1)) != 0 {
 			continue // account shape: owner == caller is already covered once above
@@ -452,6 +471,11 @@ func (w *World10) calls(caller int) []Call10 {
 	add(S, "delegateV2", fmt.Sprintf("(CDelegateV2 0 %s)", zb(e18(2))), true, nil, -1, nil, 0, v0, e18(2))
 	add(S, "delegateV2", fmt.Sprintf("(CDelegateV2 1 %s)", zb(e18(2))), true, nil, -1, nil, 0, v1, e18(2))
 	add(S, "delegateV2", fmt.Sprintf("(CDelegateV2 0 %s)", zb(e18(100000))), true, nil, -1, nil, 0, v0, e18(100000))
+	for _, n := range []int64{0, 1} { // boundary amounts
+		add(S, "delegateV2", fmt.Sprintf("(CDelegateV2 0 %d)", n), true, nil, -1, nil, 0, v0, big.NewInt(n))
+		add(S, "undelegateV2", fmt.Sprintf("(CUndelegateV2 0 %d)", n), true, nil, -1, nil, 0, v0, big.NewInt(n))
+	}
+	add(S, "redelegateV2", "(CRedelegateV2 0 1 0)", true, nil, -1, nil, 0, v0, v1, big.NewInt(0))
 	add(S, "undelegateV2", fmt.Sprintf("(CUndelegateV2 0 %s)", zb(e18(1))), true, nil, -1, nil, 0, v0, e18(1))
 	add(S, "undelegateV2", fmt.Sprintf("(CUndelegateV2 0 %s)", zb(e18(1000))), true, nil, -1, nil, 0, v0, e18(1000))
 	add(S, "redelegateV2", fmt.Sprintf("(CRedelegateV2 0 1 %s)", zb(e18(1))), true, nil, -1, nil, 0, v0, v1, e18(1))
@@ -591,8 +615,8 @@ func runC10() {
 		for _, call := range w.calls(caller) {
 			for _, sw := range sws {
 				total++
-				if !thorough && sw.name != "none" && !r.Chance(22) {
-					continue // quick: every (shape, call) without switch, about a fifth of the switch combinations
+				if !thorough && sw.name != "none" && !r.Chance(15) {
+					continue // quick: every (shape, call) without switch, about a seventh of the switch combinations
 				}
 				w.one(rep, r, sh, caller, kind, static, call, sw, &items)
 			}
@@ -746,6 +770,26 @@ func (w *World10) one(rep *lib.Report, r *lib.Rand, sh shape, caller int, kind s
 	if !call.Write && ok {
 		if d := lib.DiffDumps(dumpPre, c.DumpAll(ctx)); len(d) > 0 {
 			fail("a read-only precompile method changed the store", "C10:readonly-wrote:"+call.Method, strings.Join(d, "\n"))
+		}
+	}
+	// a caller that is not the owner and holds no allowance changes nothing of the owner's: whatever the amount
+	if call.Method == "transferFromShares" && call.From >= 0 && call.From != caller {
+		if al := pre.Alw[[3]int{call.Val, call.From, caller}]; al == nil || al.Sign() == 0 {
+			a := call.From
+			changed := post.Bal[a].Cmp(pre.Bal[a]) != 0
+			for v := 0; v < 2; v++ {
+				changed = changed || post.Dlg[a][v].Cmp(pre.Dlg[a][v]) != 0 || post.Rwd[a][v].Cmp(pre.Rwd[a][v]) != 0 || post.Unb[a][v].Cmp(pre.Unb[a][v]) != 0
+			}
+			if ok || changed {
+				fail("transferFromShares by a caller without any allowance from the owner went through or changed the owner's delegation, rewards or balance",
+					"C10:no-allowance:transferFromShares", fmt.Sprintf("owner %d caller %d amount %s: ok=%v rewards %v -> %v balance %s -> %s", a, caller, call.Shares, ok, pre.Rwd[a], post.Rwd[a], pre.Bal[a], post.Bal[a]))
+			}
+		}
+	}
+	// the staking module's own invariant: no delegation record with zero (or negative) shares
+	if ok && call.Write {
+		if msg, broken := stakingkeeper.PositiveDelegationInvariant(c.App.StakingKeeper.Keeper)(ctx); broken {
+			fail("a precompile call left a delegation record without shares (x/staking PositiveDelegationInvariant)", "C10:staking-invariant:positive-delegation", msg)
 		}
 	}
 	// third parties: everybody but the direct caller; the sender of the transaction paid `value` to the contract it called
